@@ -173,9 +173,12 @@ CHECKS: dict[str, tuple[str, str, str, str, str]] = {
         "instances, on ALL schedules (DFS re-execution); outputs are compared with the "
         "unpartitioned global graph, every run's event trace is validated by DistTrace.tla, and "
         "the set of global states the real executor reaches must equal TLC's reachable set. "
-        "Waitsome reports completed indices in varying order (ascending / descending / rotated), "
-        "and every program is also executed three times in a row on ONE partition object (time "
-        "stepping) under a random schedule.",
+        "Waitsome reports completed indices in varying order (ascending / descending / rotated). "
+        "Time stepping: DistExecEpochs.tla (two unsynchronised consecutive executions of the "
+        "same partition per rank, memoised reference counts as state) is model-checked on the "
+        "real partitions under all schedules, its negative control (the executor works on the "
+        "memoised object) must be reported, and the real executor runs three unsynchronised "
+        "steps on ONE partition object under a random schedule.",
         "Trusted: TLC; the simulated MPI (non-overtaking per (source, tag), buffered Isend, "
         "rendezvous Wait, arbitrary non-empty Waitsome subsets), not a real MPI. In the "
         "exhaustive-schedule stages part programs are a NumPy reference evaluator of the part "
